@@ -484,3 +484,38 @@ Lemma wire_validate_panic_needs_recover (val : hdr -> valres) (ver : hdr -> verr
   val h = ValPanic ->
   r_out (verify_body val ver w (Msg VdNone (DecOk h))) = SPanic.
 Proof. intros Hv. unfold verify_body, extract_header. cbn. rewrite Hv. reflexivity. Qed.
+
+(** ** several local Subscriptions *)
+
+(** what one Subscription must get for a message, given the validator's verdict *)
+Definition sub_gets (o : outcome) (s : substate) (d : list nhres) : Prop :=
+  match s, o with
+  | SubLive, SAccept h => d = [NhOk h]
+  | _, _ => d = []
+  end.
+
+Lemma deliver_to_spec val ver w m s :
+  sub_gets (r_out (verify_message val ver w m)) s (deliver_to (handle_message val ver w m) s).
+Proof.
+  unfold sub_gets, deliver_to, handle_message, pubsub_effects.
+  destruct s; [|reflexivity].
+  destruct (r_out (verify_message val ver w m)) as [h| | |] eqn:E; cbn [e_deliver]; try reflexivity.
+  destruct (accept_sets_vdata val ver w m h E) as [Hv _]. rewrite Hv. reflexivity.
+Qed.
+
+Lemma per_subscription_delivery val ver w m subs :
+  Forall2 (sub_gets (r_out (verify_message val ver w m))) subs (handle_message_subs val ver w m subs).
+Proof.
+  unfold handle_message_subs, deliveries.
+  induction subs as [|s subs IH]; cbn [map]; constructor; [apply deliver_to_spec | exact IH].
+Qed.
+
+(** NextHeader never panics on what the validator let through, on any Subscription *)
+Lemma no_subscription_panics val ver w m subs d :
+  In d (handle_message_subs val ver w m subs) -> ~ In NhPanic d.
+Proof.
+  intros Hin. pose proof (per_subscription_delivery val ver w m subs) as F.
+  revert Hin. induction F as [|s x subs ds Hx F IH]; cbn [In]; [tauto|].
+  intros [<-|Hin]; [|exact (IH Hin)].
+  unfold sub_gets in Hx. destruct s, (r_out (verify_message val ver w m)); subst x; cbn; intuition discriminate.
+Qed.
